@@ -26,7 +26,7 @@ def gen_script(rng, tier):
         # (component `lbgate`: the real Heap/ApertureBalancerSink vs Model/LBBase.lean, spec LB.specGate)
         return lbrun.gen_script(rng, tier, 12)
     if r < 0.5:
-        return e2e.gen_script(rng, tier, rng.choice(['aged', 'edge', 'edge'] + [None] * 7))
+        return e2e.gen_script(rng, tier, rng.choice(['aged', 'edge', 'edge', 'slowpeer', 'slowpeer'] + [None] * 7))
     if r < 0.7:
         # the serial transport on the step-controlled socket (component `serial12`: no frame of a
         # request after its TimeoutError; an expired request is never written)
